@@ -797,6 +797,28 @@ def r46(text):
     return t, n1 + n2
 
 
+@rule("R47", "Definition of `bool::then_some`: `B.then_some(X)` -> `{ let b_ = B; let v_ = X; if b_ { Some(v_) } else { None } }` (the argument is "
+             "evaluated eagerly, after the receiver, as in the method call).")
+def r47(text):
+    n = 0
+    while True:
+        m = re.search(r"\.\s*then_some\(", text)
+        if not m:
+            break
+        o = m.end() - 1
+        toks = tokenize(text[o:])
+        c = o + toks[match_close(toks, 0)].start
+        inner = text[o + 1:c]
+        rs = _receiver_start(text, m.start())
+        recv = text[rs:m.start()].rstrip()
+        rep = "{ let b_ = %s; let v_ = %s; if b_ { Some(v_) } else { None } }" % (recv, inner.strip())
+        old = text[rs:c + 1]
+        rep = rep + "\n" * max(0, old.count("\n") - rep.count("\n"))
+        text = text[:rs] + rep + text[c + 1:]
+        n += 1
+    return text, n
+
+
 @rule("R39", "Definition of Option::map_or with a closure: `X.map_or(D, |p| E)` -> `match X { Some(p) => E, None => D }`.")
 def r39(text):
     n = 0
